@@ -25,7 +25,7 @@ theorem next_rev (L : List Nat) (k : Nat) (hk : k ≤ L.length) (hk0 : k ≠ 0) 
   obtain ⟨j, rfl⟩ : ∃ j, k = j + 1 := ⟨k - 1, by omega⟩
   have hj : j < L.length := by omega
   have e : L[j]? = some L[j] := List.getElem?_eq_getElem hj
-  refine ⟨L[j], by simpa using e, ?_⟩
+  refine ⟨L[j], by simp, ?_⟩
   rw [List.take_add_one, e]
   simp
 
@@ -60,13 +60,13 @@ theorem rest_next (L : List Nat) (d : Dir) (c : ACur) (hc : c.InRange L) :
       by_cases hk0 : k = 0
       · simp [hk0]
       · obtain ⟨v, h1, h2⟩ := next_rev L k hc hk0
-        simp only [hk0, if_false, h1, h2, rest]
+        simp only [hk0, if_false, h1, h2]
     | gap k =>
       simp only [rest, next]
       by_cases hk0 : k = 0
       · simp [hk0]
       · obtain ⟨v, h1, h2⟩ := next_rev L k hc hk0
-        simp only [hk0, if_false, h1, h2, rest]
+        simp only [hk0, if_false, h1, h2]
 
 theorem next_inRange (L : List Nat) (d : Dir) (c : ACur) (hc : c.InRange L) :
     (next L d c).1.InRange L := by
